@@ -10,7 +10,7 @@ use crate::{
     shared::util::itime::ITimestamp,
     tz::{Offset, TimeZone},
     util::{
-        rangeint::{self, Composite, RFrom, RInto},
+        rangeint::{self, Composite, RFrom, RInto, TryRFrom},
         round::increment,
         t::{
             self, FractionalNanosecond, NoUnits, NoUnits128, UnixMicroseconds,
@@ -3662,7 +3662,16 @@ impl TimestampRound {
             self.smallest,
             increment,
         );
-        let nanosecond = UnixNanoseconds::rfrom(rounded);
+        // Rounding can move a timestamp near the minimum or maximum out of
+        // the supported range, so this conversion must be checked.
+        let nanosecond = UnixNanoseconds::try_rfrom("nanoseconds", rounded)
+            .with_context(|| {
+                err!(
+                    "rounding {timestamp} to the nearest {unit} \
+                     overflows the supported range of timestamps",
+                    unit = self.smallest.singular(),
+                )
+            })?;
         Ok(Timestamp::from_nanosecond_ranged(nanosecond))
     }
 }
